@@ -43,14 +43,20 @@ def clean_paths(ctx):
 
 
 def check(ctx):
-    ctx.rule('ESC-MAKE', 'every Make path position (target, prerequisite, '
-             'order-only, include operand, depfile entry, path variable) is '
-             'written with a Syntax member that escapes every GNU Make '
-             'metacharacter of that position')
-    ctx.rule('ESC-NINJA', 'every Ninja path position (outputs, inputs, '
-             'implicit, order-only, default) escapes $, space and colon')
-    ctx.rule('SYNTAX-POSITION', 'left of a colon: Syntax.target/output; '
-             'right of it: Syntax.dependency/input')
+    ctx.rule('ESC-MAKE', 'Syntax.target / Syntax.dependency / Syntax.clean '
+             'escape every GNU Make metacharacter of the path positions they '
+             'are designed for (targets and include operands; '
+             'prerequisites; path variables); keys are '
+             'context|member|character')
+    ctx.rule('ESC-NINJA', 'Syntax.output / Syntax.input escape $, space and '
+             'colon (Ninja build-line paths)')
+    ctx.rule('SYNTAX-POSITION', 'value flow from Makefile.write / '
+             'NinjaFile.write / write_depfile through their helpers: rule '
+             'targets and include operands are written with Syntax.target, '
+             'prerequisites and order-only directories with '
+             'Syntax.dependency (targets only on the .PHONY line), build '
+             'outputs with Syntax.output, inputs/implicit/order-only/'
+             'defaults with Syntax.input')
     ctx.not_decided += [
         'what compilers write into .d files and whether depfixer.tokenize '
         'agrees with them (external writer)',
